@@ -32,6 +32,7 @@ EXPRS = {
                                                                             ["and", 5, 6, ""]], "root": 7},
     "parts_v1": {"text": "t1,wip", "more": ["-t2"], "nodes": [["lit", 0, 0, "t1"], ["lit", 0, 0, "wip"], ["or", 1, 2, ""],
                                                              ["lit", 0, 0, "t2"], ["not", 4, 0, ""], ["and", 3, 5, ""]], "root": 6},
+    "v1t": {"text": "~@t1", "nodes": [["lit", 0, 0, "t1"], ["not", 1, 0, ""]], "root": 2},
     "v1b": {"text": "android,t1", "nodes": [["lit", 0, 0, "android"], ["lit", 0, 0, "t1"], ["or", 1, 2, ""]], "root": 3},
     "v1": {"text": "-t1,t2", "nodes": [["lit", 0, 0, "t1"], ["not", 1, 0, ""], ["lit", 0, 0, "t2"], ["or", 2, 3, ""]], "root": 4},
     "wip": {"text": "wip", "nodes": [["lit", 0, 0, "wip"]], "root": 1},
